@@ -131,6 +131,19 @@ func genC20(r *PRNG, tier string) *Scenario {
 			// a writer that is simply never closed (outside the property: ends the run holding a buffer)
 			ops = append(ops, WOp{Kind: "nw", MT: 2, Pay: Payload{Len: 5, Seed: 1}, Chunks: []Chunk{{How: "w", N: 5}}, End: "abandon"})
 		}
+		if r.Chance(1, 6) {
+			// the application closes the connection while one of its messages is open and carries on with
+			// the writer: the message ends by an error and the buffer still goes back exactly once
+			for k := range ops {
+				if ops[k].Kind == "nw" && len(ops[k].Chunks) > 0 && r.Bool() {
+					at := r.Range(0, len(ops[k].Chunks))
+					cs := append([]Chunk{}, ops[k].Chunks[:at]...)
+					cs = append(cs, Chunk{How: "cc"})
+					ops[k].Chunks = append(cs, ops[k].Chunks[at:]...)
+					break
+				}
+			}
+		}
 		tasks := []TaskCfg{{Kind: "writer", W: ops}}
 		if r.Chance(1, 3) {
 			// another goroutine pings, and sometimes sends a close while a message of the writer is open:
